@@ -1,5 +1,5 @@
 """C11 - close() is sticky, unblocks every consumer, and never strands an async poller (DESIGN 5.11)."""
-import json
+import json, os, shutil
 import common
 import ls_iter as L
 
@@ -20,7 +20,9 @@ ASSUME = ['memory model (DESIGN 3.3): all atomics of the protocol are SeqCst exc
           'the self-pipe can hold at least one byte (cap >= 1); the write end stays open while a Handle exists (no EOF on the read end); read errors other than EINTR do not occur',
           'a blocking read interrupted by a signal (EINTR) is retried; solo-progress bounds count the consumer\'s own uninterrupted steps',
           'one consumer per instance (every consuming method takes &mut self); batches (Pending) may be scanned by any thread at any time',
-          'the asynchronous caller\'s readiness callback either consumes a byte and answers true or arms a wake-up and answers false (what tokio/async-io poll_read do)']
+          'the asynchronous caller\'s readiness callback either consumes a byte and answers true or arms a wake-up and answers false (what tokio/async-io poll_read do)',
+          'reactor contract (hypothesis of C11_adapter_*): poll_read of tokio::net::UnixStream / async_io::Async<UnixStream> on the read end of the self-pipe reads one byte if one is '
+          'readable, otherwise returns Pending after registering the task\'s waker for readability of the read end; no end-of-file/error while a Handle (write end) exists']
 
 
 def run(ctx):
@@ -30,11 +32,60 @@ def run(ctx):
     ctx.translate(COMPONENTS)
     ctx.prove('props/C11.v')
     L.lockstep(ctx, [L.mon_c11], ['c11'])
+    async_probe(ctx)
     ctx.coverage['rule'] = ('scenarios {wait | Forever::next | poll_signal with a recording non-blocking callback} x {close(), two close(), delivery + close()}: every split point '
                             'of each activity against the others (consumer: every step around call boundaries and scan ends), random 2-preemption and random run-length schedules; '
                             'distinct_nontrivial = distinct implementation traces in which at least two activities interleave; monitors on the real traces: every PollResult with the '
                             'callback log of that call (Pending with 0 consultations or after an "available" answer = violation), closed flag read false after the store, consumer blocked / '
                             'not returning within 2*MAX_SIGNUM+12 own steps / Forever::next not ending after close() returned')
+
+
+def async_probe(ctx):
+    """Dynamic monitor on the real adapters: signal-hook-tokio / signal-hook-async-std built as path
+    dependencies of the repository under test (offline, crates from the cargo cache), Stream::poll_next
+    polled by hand with a counting waker (harness_async/src/main.rs)."""
+    src = os.path.join(common.ROOT, 'harness_async')
+    d = os.path.join(common.BUILD, 'c11_async')
+    os.makedirs(d, exist_ok=True)
+    toml = open(os.path.join(src, 'Cargo.toml.in')).read().replace('@REPO@', common.REPO).replace('@SRC@', src)
+    common.write_if_changed(os.path.join(d, 'Cargo.toml'), toml)
+    if not os.path.exists(os.path.join(d, 'Cargo.lock')) and os.path.exists(os.path.join(common.REPO, 'Cargo.lock')):
+        shutil.copy(os.path.join(common.REPO, 'Cargo.lock'), os.path.join(d, 'Cargo.lock'))
+    with common.Lock('cargo_async'):
+        rc, out, _ = common.sh('cargo build --offline 2>&1', cwd=d, env={'CARGO_TARGET_DIR': os.path.join(d, 'target')}, timeout=900)
+    if rc != 0:
+        if any(k in out for k in ('no matching package', 'failed to download', 'failed to select a version', "can't be accessed in offline mode")):
+            ctx.notes.append('async adapter probe skipped: tokio/async-io do not build offline here')
+            ctx.coverage['async_adapter_probe'] = 'skipped (crates not available offline)'
+            return
+        ctx.correspondence('async adapters: probe builds against the adapters of the repository', False, out[-1500:])
+        return
+    rc, out, _ = common.sh([os.path.join(d, 'target', 'debug', 'p_c11_async')], timeout=120)
+    rows = {}
+    for l in out.split('\n'):
+        t = l.split()
+        if len(t) == 6 and t[1] in ('S1', 'S2', 'S3'):
+            rows[(t[0], t[1])] = dict(x.split('=', 1) for x in t[2:])
+    expect = {'S1': ('Pending', 'Ready(Some(10))'), 'S2': ('Ready(None)', 'Ready(None)'), 'S3': ('Pending', 'Ready(None)')}
+    bad = []
+    for ad in ('tokio', 'asyncstd'):
+        for sit, (f, snd) in expect.items():
+            ctx.evaluations += 1
+            r = rows.get((ad, sit))
+            if r is None:
+                bad.append('%s %s: no result (rc=%d)' % (ad, sit, rc))
+                continue
+            fired = int(r['wakes1']) > int(r['wakes0'])
+            if r['first'] == 'Pending' and not fired:
+                ctx.violation({'monitor': 'adapter-stranded', 'adapter': ad, 'situation': sit},
+                              '%s adapter: poll_next returned Poll::Pending and the waker never fired after the later %s' % (ad, 'raise' if sit == 'S1' else 'close()'),
+                              {'adapter': ad, 'situation': sit, 'row': r})
+            elif (r['first'], r['second']) != (f, snd):
+                bad.append('%s %s: poll_next gave %s then %s, expected %s then %s' % (ad, sit, r['first'], r['second'], f, snd))
+            else:
+                ctx.traces += 1
+    ctx.correspondence('async adapters: real Stream::poll_next (tokio, async-std) behaves as C11_adapter_* state, 3 situations x 2 adapters', not bad, bad)
+    ctx.coverage['async_adapter_probe'] = {'%s/%s' % k: v for k, v in rows.items()}
 
 
 def replay(ctx, path):
